@@ -126,6 +126,8 @@ def run(rep, br, proofs, rng, tier):
         iters = 3 if name.startswith("gen") else (20 if tier == "quick" else 100)
         cases.append(mk_case(name, "conc", str(nvm), str(iters), hexs(src), hexs(M1), hexs(M2)))
         dumps.append(mk_case("d." + name, "sharedump", hexs(src), hexs(M1), hexs(M2)))
+    # a host aborts some VMs while their callbacks run on pooled child VMs; the others are unaffected
+    cases.append(mk_case("poolabort", "poolabort", "40" if tier == "quick" else "2000", "8"))
     # race harness in shards, so that a report is attributable
     shards = [cases[i::8] for i in range(8)]
     from concurrent.futures import ThreadPoolExecutor
@@ -153,6 +155,14 @@ def run(rep, br, proofs, rng, tier):
             r = res.get(c["id"])
             if r is None:
                 fails.append((c["line"][:6000], "no result (harness died): %s" % err[-500:])); continue
+            if c["kind"] == "poolabort":
+                if r.startswith("(ok"): stats["runs_beside_aborted_vms"] = int(vlib.parse_sexp(r)[1])
+                elif not r.startswith("(diff"): dis.append((c["line"], "harness answer %s" % r[:300]))
+                else:
+                    sx = vlib.parse_sexp(r)
+                    fails.append((c["line"], "after / while other VMs over the same Bytecode were aborted by the host inside a callback on a pooled child VM, a VM that was not aborted returned %s; alone the script returns %s (round %s)" % (
+                        vlib.unhex(sx[2]).decode(errors="replace")[:400] if len(sx) > 3 else r[:300], vlib.unhex(sx[3]).decode(errors="replace")[:400] if len(sx) > 3 else "", sx[1] if len(sx) > 1 else "")))
+                continue
             if r.startswith("(ok"):
                 stats["ok"] += 1
                 if vlib.unhex(vlib.parse_sexp(r)[1]).startswith(b"err"): stats["returned_error"] += 1
@@ -191,7 +201,7 @@ def run(rep, br, proofs, rng, tier):
             rep.violation({"property": "C08", "kind": "correspondence", "why": why, "case": line}, found=False)
     rep.coverage.update({
         "evaluations": len(cases) + len(mlines), "distinct_nontrivial": stats["ok"],
-        "rule": "templates (module privacy through every container of a builtin module, errors with stack traces from two files, callbacks through pooled child VMs, closures and source module state, uncaught errors, time/fmt/json) and type-directed generated programs with imports; each compiled once and run by 2..16 VMs on their own goroutines (3..40 runs each, Clear between runs) under the race detector; every outcome compared with the solo outcome; the compiled form of every program through the Coq validator share_ok; non-trivial = programs whose concurrent runs all equal the solo run",
+        "rule": "templates (module privacy through every container of a builtin module, errors with stack traces from two files, callbacks through pooled child VMs, closures and source module state, uncaught errors, time/fmt/json) and type-directed generated programs with imports; each compiled once and run by 2..16 VMs on their own goroutines (3..40 runs each, Clear between runs) under the race detector; every outcome compared with the solo outcome; VMs aborted by the host from inside a callback on a pooled child VM (7 abort points, sequentially on one goroutine and concurrently) beside VMs that are not aborted and must return the solo outcome; the compiled form of every program through the Coq validator share_ok; non-trivial = programs whose concurrent runs all equal the solo run",
         "samples": [cases[0]["line"][:300], cases[len(TEMPLATES)]["line"][:300]],
         "stats": stats, "statement_kinds": kinds, "validated_programs": validated, "validator_rejections": rejected,
         "disagreements": len(dis), "oracle_failures": len(fails)})
